@@ -872,6 +872,576 @@ def hd_gen(rng, n, thorough):
     return cases
 
 
+
+# ------------------------------------------------------------------ suite: transport parameters (stretch)
+KIND = {"int": 0, "bytes": 1, "bool": 2, "QuicPreferredAddress": 3, "QuicVersionInformation": 4}
+
+
+def _params_table():
+    from aioquic.quic import packet
+    return [(pid, name, KIND[typ.__name__]) for pid, (name, typ) in packet.PARAMS.items()]
+
+
+def _addr_tokens(a, n):
+    import ipaddress
+    if a is None:
+        return [0]
+    packed = (ipaddress.IPv4Address if n == 4 else ipaddress.IPv6Address)(a[0]).packed
+    return [1] + list(packed) + [a[1]]
+
+
+def _pval_tokens(kind, v):
+    if kind == 0:
+        return [0, v]
+    if kind == 1:
+        return [1] + lp(v)
+    if kind == 2:
+        return [2]
+    if kind == 3:
+        return [3] + _addr_tokens(v.ipv4_address, 4) + _addr_tokens(v.ipv6_address, 16) + lp(v.connection_id) + lp(v.stateless_reset_token)
+    return [4, v.chosen_version] + lp(v.available_versions)
+
+
+def _params_dump(params):
+    out = []
+    for pid, name, kind in _params_table():
+        v = getattr(params, name)
+        if v is None or v is False:
+            continue
+        out += [pid] + _pval_tokens(kind, v)
+    return out
+
+
+def _mk_params(spec):
+    """spec: {name: json value}; bytes as hex, preferred address / version information as dicts"""
+    from aioquic.quic import packet
+    kw = {}
+    for pid, name, kind in _params_table():
+        if name not in spec:
+            continue
+        v = spec[name]
+        if kind == 1:
+            v = B(v)
+        elif kind == 2:
+            v = bool(v)
+        elif kind == 3:
+            v = packet.QuicPreferredAddress(
+                ipv4_address=tuple(v["v4"]) if v["v4"] else None, ipv6_address=tuple(v["v6"]) if v["v6"] else None,
+                connection_id=B(v["cid"]), stateless_reset_token=B(v["tok"]))
+        elif kind == 4:
+            v = packet.QuicVersionInformation(chosen_version=v["chosen"], available_versions=list(v["avail"]))
+        kw[name] = v
+    return packet.QuicTransportParameters(**kw)
+
+
+def tp_encode(case):
+    op = case["op"]
+    if op[0] == "pull":
+        return [0] + lp(B(op[1]))
+    params = _mk_params(op[2])
+    ents = []
+    n = 0
+    for pid, name, kind in _params_table():
+        v = getattr(params, name)
+        if v is None or v is False:
+            continue
+        ents += [pid] + _pval_tokens(kind, v)
+        n += 1
+    return [1, op[1], n] + ents
+
+
+def tp_impl(case):
+    from aioquic.buffer import Buffer
+    from aioquic.quic import packet
+    op = case["op"]
+    try:
+        if op[0] == "pull":
+            b = Buffer(data=B(op[1]))
+            return [0] + _params_dump(packet.pull_quic_transport_parameters(b))
+        b = Buffer(capacity=op[1])
+        packet.push_quic_transport_parameters(b, _mk_params(op[2]))
+        return [0] + lp(b.data)
+    except Exception as e:
+        return [errk(e)]
+
+
+def rfc_tparams(params):
+    """RFC 9000 section 18: sequence of (id varint, length varint, value), independent of packet.py's push."""
+    import ipaddress
+    out = b""
+    for pid, name, kind in _params_table():
+        v = getattr(params, name)
+        if v is None or v is False:
+            continue
+        if kind == 0:
+            body = rfc_varint(v)
+        elif kind == 1:
+            body = v
+        elif kind == 2:
+            body = b""
+        elif kind == 3:
+            body = (ipaddress.IPv4Address(v.ipv4_address[0]).packed + v.ipv4_address[1].to_bytes(2, "big")) if v.ipv4_address else bytes(6)
+            body += (ipaddress.IPv6Address(v.ipv6_address[0]).packed + v.ipv6_address[1].to_bytes(2, "big")) if v.ipv6_address else bytes(18)
+            body += bytes([len(v.connection_id)]) + v.connection_id + v.stateless_reset_token
+        else:
+            body = b"".join(x.to_bytes(4, "big") for x in [v.chosen_version] + v.available_versions)
+        out += rfc_varint(pid) + rfc_varint(len(body)) + body
+    return out
+
+
+def tp_in_domain(params):
+    for pid, name, kind in _params_table():
+        v = getattr(params, name)
+        if v is None or v is False:
+            continue
+        if kind == 0 and not 0 <= v < U62:
+            return False
+        if kind == 1 and len(v) > 60000:
+            return False
+        if kind == 3:
+            if len(v.connection_id) > 255 or len(v.stateless_reset_token) != 16:
+                return False
+            for a in (v.ipv4_address, v.ipv6_address):
+                if a is not None and (not 0 <= a[1] < 65536 or a[0] in ("0.0.0.0", "::")):
+                    return False
+        if kind == 4 and any(not 0 < x < 1 << 32 for x in [v.chosen_version] + v.available_versions):
+            return False
+    return True
+
+
+def tp_oracle(case):
+    from aioquic.buffer import Buffer
+    from aioquic.quic import packet
+    op = case["op"]
+    if op[0] == "push":
+        params = _mk_params(op[2])
+        if not tp_in_domain(params):
+            return None
+        ref = rfc_tparams(params)
+        b = Buffer(capacity=op[1])
+        try:
+            packet.push_quic_transport_parameters(b, params)
+        except Exception as e:
+            if errk(e) == E_WRITE and len(ref) > op[1]:
+                return None
+            return ("push_quic_transport_parameters raised %s" % type(e).__name__, {"codec": "tparams", "rule": "raise"})
+        if b.data != ref:
+            return ("push_quic_transport_parameters differs from the RFC 9000 section 18 encoder", {"codec": "tparams", "rule": "bytes"})
+        r = Buffer(data=b.data)
+        if packet.pull_quic_transport_parameters(r) != params or not r.eof():
+            return ("pull(push(params)) != params", {"codec": "tparams", "rule": "roundtrip"})
+        return None
+    data = B(op[1])
+    b = Buffer(data=data)
+    try:
+        params = packet.pull_quic_transport_parameters(b)
+    except ValueError:
+        return None
+    except Exception as e:
+        return ("pull_quic_transport_parameters raised %s" % type(e).__name__, {"codec": "tparams", "rule": "exception", "exception": type(e).__name__})
+    b2 = Buffer(capacity=len(data) + 4096)
+    packet.push_quic_transport_parameters(b2, params)
+    again = packet.pull_quic_transport_parameters(Buffer(data=b2.data))
+    if again != params:
+        return ("decoded transport parameters do not re-encode to the same value", {"codec": "tparams", "rule": "reencode"})
+    return None
+
+
+def rand_tp_value(rng, kind):
+    if kind == 0:
+        return rng.choice([0, 1, 63, 64, 16383, 16384, (1 << 30) - 1, 1 << 30, U62 - 1, rng.getrandbits(rng.choice([6, 14, 30, 62]))])
+    if kind == 1:
+        return H(rbytes(rng, rng.choice([0, 1, 8, 16, 20, 63, 64, 300])))
+    if kind == 2:
+        return True
+    if kind == 3:
+        import ipaddress
+        v4 = [str(ipaddress.IPv4Address(rng.getrandbits(32) or 1)), rng.getrandbits(16)] if rng.random() < 0.7 else None
+        v6 = [str(ipaddress.IPv6Address(rng.getrandbits(128) or 1)), rng.getrandbits(16)] if rng.random() < 0.7 else None
+        return {"v4": v4, "v6": v6, "cid": H(rbytes(rng, rng.choice([0, 1, 8, 20, 21, 255]))), "tok": H(rbytes(rng, 16))}
+    return {"chosen": rng.choice([V1, V2, rng.getrandbits(32) or 1]), "avail": [rng.choice([V1, V2, rng.getrandbits(32) or 3]) for _ in range(rng.randint(0, 4))]}
+
+
+def tp_gen(rng, n, thorough):
+    table = _params_table()
+    cases = []
+    # every single parameter with boundary values; all subsets of a 6-parameter core (thorough: 10)
+    for pid, name, kind in table:
+        for _ in range(6):
+            cases.append({"s": "tparams", "op": ["push", 4096, {name: rand_tp_value(rng, kind)}]})
+    core = table[: (10 if thorough else 6)] + table[12:14]
+    for bits in range(1 << len(core)):
+        spec = {name: rand_tp_value(rng, kind) for i, (pid, name, kind) in enumerate(core) if bits >> i & 1}
+        cases.append({"s": "tparams", "op": ["push", 4096, spec]})
+    cases.append({"s": "tparams", "op": ["push", 100000, {"original_destination_connection_id": "00" * 65537}]})   # inner buffer overflow
+    cases.append({"s": "tparams", "op": ["push", 64, {"max_idle_timeout": U62}]})
+    cases.append({"s": "tparams", "op": ["push", 64, {"version_information": {"chosen": 0, "avail": [1 << 32]}}]})
+    for _ in range(n):
+        spec = {name: rand_tp_value(rng, kind) for pid, name, kind in table if rng.random() < 0.3}
+        r = rng.random()
+        if r < 0.3:
+            cases.append({"s": "tparams", "op": ["push", rng.choice([4096, 4096, rng.randint(0, 60)]), spec]})
+            continue
+        try:
+            data = rfc_tparams(_mk_params(spec))
+        except Exception:
+            data = b""
+        if r < 0.45:
+            # unknown ids, duplicate ids, lying lengths
+            extra = rfc_varint(rng.choice([0x21, 0x3F, 0x40, 0x2AB2, 1 << 31])) + rfc_varint(3) + rbytes(rng, rng.choice([3, 3, 2, 4]))
+            data = rng.choice([extra + data, data + extra, data + data])
+        elif r < 0.9:
+            for _ in range(rng.randint(1, 3)):
+                data = mutate(rng, data)
+        else:
+            data = rbytes(rng, rng.randint(0, 30))
+        cases.append({"s": "tparams", "op": ["pull", H(data)]})
+    return cases
+
+
+# ------------------------------------------------------------------ suite: TLS handshake messages (stretch)
+TLS_ALLOWED = {E_READ, E_ALERT_DECODE, E_ALERT_ILLEGAL}
+CANDIDATES = {}          # signature -> example case (behaviours reported as candidate findings, see docs/C17.md)
+
+
+def _tls_funcs():
+    from aioquic import tls
+    return {1: (tls.pull_client_hello, tls.push_client_hello), 2: (tls.pull_server_hello, tls.push_server_hello),
+            4: (tls.pull_new_session_ticket, tls.push_new_session_ticket), 8: (tls.pull_encrypted_extensions, tls.push_encrypted_extensions),
+            11: (tls.pull_certificate, tls.push_certificate), 13: (tls.pull_certificate_request, tls.push_certificate_request),
+            15: (tls.pull_certificate_verify, tls.push_certificate_verify), 20: (tls.pull_finished, tls.push_finished)}
+
+
+def _ints(l):
+    return [len(l)] + [int(x) for x in l]
+
+
+def _opt(present, toks):
+    return [1] + toks if present else [0]
+
+
+def _others(l):
+    out = [len(l)]
+    for t, d in l:
+        out += [int(t)] + lp(d)
+    return out
+
+
+def tls_dump(kind, m):
+    if kind == 1:
+        out = lp(m.random) + lp(m.legacy_session_id) + _ints(m.cipher_suites) + _ints(m.legacy_compression_methods)
+        ks = None
+        if m.key_share is not None:
+            ks = [len(m.key_share)]
+            for g, d in m.key_share:
+                ks += [int(g)] + lp(d)
+        out += _opt(ks is not None, ks or [])
+        for f in (m.supported_versions, m.signature_algorithms, m.supported_groups, m.psk_key_exchange_modes):
+            out += _opt(f is not None, _ints(f or []))
+        out += _opt(m.server_name is not None, lp((m.server_name or "").encode("ascii")))
+        al = None
+        if m.alpn_protocols is not None:
+            al = [len(m.alpn_protocols)]
+            for a in m.alpn_protocols:
+                al += lp(a.encode("ascii"))
+        out += _opt(al is not None, al or [])
+        out += _opt(m.early_data, [])
+        psk = None
+        if m.pre_shared_key is not None:
+            psk = [len(m.pre_shared_key.identities)]
+            for i, age in m.pre_shared_key.identities:
+                psk += lp(i) + [age]
+            psk += [len(m.pre_shared_key.binders)]
+            for bd in m.pre_shared_key.binders:
+                psk += lp(bd)
+        out += _opt(psk is not None, psk or [])
+        return out + _others(m.other_extensions)
+    if kind == 2:
+        out = lp(m.random) + lp(m.legacy_session_id) + [int(m.cipher_suite), int(m.compression_method)]
+        out += _opt(m.supported_version is not None, [m.supported_version or 0])
+        out += _opt(m.key_share is not None, ([int(m.key_share[0])] + lp(m.key_share[1])) if m.key_share is not None else [])
+        out += _opt(m.pre_shared_key is not None, [m.pre_shared_key or 0])
+        return out + _others(m.other_extensions)
+    if kind == 4:
+        out = [m.ticket_lifetime, m.ticket_age_add] + lp(m.ticket_nonce) + lp(m.ticket)
+        out += _opt(m.max_early_data_size is not None, [m.max_early_data_size or 0])
+        return out + _others(m.other_extensions)
+    if kind == 8:
+        out = _opt(m.alpn_protocol is not None, lp((m.alpn_protocol or "").encode("ascii"))) + _opt(m.early_data, [])
+        return out + _others(m.other_extensions)
+    if kind == 11:
+        out = lp(m.request_context) + [len(m.certificates)]
+        for d, e in m.certificates:
+            out += lp(d) + lp(e)
+        return out
+    if kind == 13:
+        out = lp(m.request_context) + _opt(m.signature_algorithms is not None, _ints(m.signature_algorithms or []))
+        return out + _others(m.other_extensions)
+    if kind == 15:
+        return [int(m.algorithm)] + lp(m.signature)
+    return lp(m.verify_data)
+
+
+# independent description of each message as a length-prefixed tree (RFC 8446 section 4)
+def I(w, v):
+    return ["i", w, int(v)]
+
+
+def Y(b):
+    return ["b", H(b)]
+
+
+def K(cap, items):
+    return ["B", cap, items]
+
+
+def EXT(t, items):
+    return [I(2, t), K(2, items)]
+
+
+def tls_tree(kind, m):
+    if kind == 1:
+        ex = []
+        ex += EXT(51, [K(2, sum(([I(2, g), K(2, [Y(d)])] for g, d in m.key_share), []))])
+        ex += EXT(43, [K(1, [I(2, v) for v in m.supported_versions])])
+        ex += EXT(13, [K(2, [I(2, v) for v in m.signature_algorithms])])
+        ex += EXT(10, [K(2, [I(2, v) for v in m.supported_groups])])
+        if m.psk_key_exchange_modes is not None:
+            ex += EXT(45, [K(1, [I(1, v) for v in m.psk_key_exchange_modes])])
+        if m.server_name is not None:
+            ex += EXT(0, [K(2, [I(1, 0), K(2, [Y(m.server_name.encode("ascii"))])])])
+        if m.alpn_protocols is not None:
+            ex += EXT(16, [K(2, [K(1, [Y(a.encode("ascii"))]) for a in m.alpn_protocols])])
+        for t, d in m.other_extensions:
+            ex += EXT(t, [Y(d)])
+        if m.early_data:
+            ex += EXT(42, [])
+        if m.pre_shared_key is not None:
+            ex += EXT(41, [K(2, sum(([K(2, [Y(i)]), I(4, age)] for i, age in m.pre_shared_key.identities), [])),
+                           K(2, [K(1, [Y(bd)]) for bd in m.pre_shared_key.binders])])
+        return [I(1, 1), K(3, [I(2, 0x0303), Y(m.random), K(1, [Y(m.legacy_session_id)]),
+                               K(2, [I(2, c) for c in m.cipher_suites]), K(1, [I(1, c) for c in m.legacy_compression_methods]), K(2, ex)])]
+    if kind == 2:
+        ex = []
+        if m.supported_version is not None:
+            ex += EXT(43, [I(2, m.supported_version)])
+        if m.key_share is not None:
+            ex += EXT(51, [I(2, m.key_share[0]), K(2, [Y(m.key_share[1])])])
+        if m.pre_shared_key is not None:
+            ex += EXT(41, [I(2, m.pre_shared_key)])
+        for t, d in m.other_extensions:
+            ex += EXT(t, [Y(d)])
+        return [I(1, 2), K(3, [I(2, 0x0303), Y(m.random), K(1, [Y(m.legacy_session_id)]), I(2, m.cipher_suite), I(1, m.compression_method), K(2, ex)])]
+    if kind == 4:
+        ex = []
+        if m.max_early_data_size is not None:
+            ex += EXT(42, [I(4, m.max_early_data_size)])
+        for t, d in m.other_extensions:
+            ex += EXT(t, [Y(d)])
+        return [I(1, 4), K(3, [I(4, m.ticket_lifetime), I(4, m.ticket_age_add), K(1, [Y(m.ticket_nonce)]), K(2, [Y(m.ticket)]), K(2, ex)])]
+    if kind == 8:
+        ex = []
+        if m.alpn_protocol is not None:
+            ex += EXT(16, [K(2, [K(1, [Y(m.alpn_protocol.encode("ascii"))])])])
+        if m.early_data:
+            ex += EXT(42, [])
+        for t, d in m.other_extensions:
+            ex += EXT(t, [Y(d)])
+        return [I(1, 8), K(3, [K(2, ex)])]
+    if kind == 11:
+        return [I(1, 11), K(3, [K(1, [Y(m.request_context)]), K(3, sum(([K(3, [Y(d)]), K(2, [Y(e)])] for d, e in m.certificates), []))])]
+    if kind == 13:
+        ex = EXT(13, [K(2, [I(2, v) for v in m.signature_algorithms])])
+        for t, d in m.other_extensions:
+            ex += EXT(t, [Y(d)])
+        return [I(1, 13), K(3, [K(1, [Y(m.request_context)]), K(2, ex)])]
+    if kind == 15:
+        return [I(1, 15), K(3, [I(2, m.algorithm), K(2, [Y(m.signature)])])]
+    return [I(1, 20), K(3, [Y(m.verify_data)])]
+
+
+def tree_tokens(t):
+    if t[0] == "i":
+        return [0, t[1], t[2]]
+    if t[0] == "b":
+        return [1] + lp(B(t[1]))
+    out = [2, t[1], len(t[2])]
+    for c in t[2]:
+        out += tree_tokens(c)
+    return out
+
+
+def tree_bytes(t):
+    """the same tree encoded in Python (used only to produce valid inputs for the pull cases)"""
+    if t[0] == "i":
+        return (t[2] % (1 << (8 * t[1]))).to_bytes(t[1], "big")
+    if t[0] == "b":
+        return B(t[1])
+    body = b"".join(tree_bytes(c) for c in t[2])
+    return len(body).to_bytes(t[1], "big") + body
+
+
+def rand_msg(rng, kind):
+    from aioquic import tls
+    rb = lambda *choices: rbytes(rng, rng.choice(choices))
+    u16 = lambda: rng.choice([0x0304, 0x1301, 0x001D, 0x0403, rng.getrandbits(16)])
+    name = lambda: "".join(rng.choice("abcxyz.-019") for _ in range(rng.choice([0, 1, 5, 30])))
+    known = {1: {51, 43, 13, 10, 45, 0, 16, 42, 41}, 2: {43, 51, 41}, 4: {42}, 8: {16, 42}, 13: {13}}
+    others = lambda: [(t, rb(0, 1, 9, 300)) for t in (rng.choice([5, 27, 44, 57, 0xFFA5, 65486, rng.getrandbits(16)])
+                                                      for _ in range(rng.choice([0, 0, 1, 2, 3]))) if t not in known.get(kind, ())]
+    if kind == 1:
+        m = tls.ClientHello(random=rbytes(rng, 32), legacy_session_id=rb(0, 32), cipher_suites=[u16() for _ in range(rng.randint(0, 4))],
+                            legacy_compression_methods=[rng.getrandbits(8) for _ in range(rng.randint(0, 2))])
+        m.key_share = [(u16(), rb(0, 32, 65)) for _ in range(rng.randint(0, 3))]
+        m.supported_versions = [u16() for _ in range(rng.randint(0, 3))]
+        m.signature_algorithms = [u16() for _ in range(rng.randint(0, 5))]
+        m.supported_groups = [u16() for _ in range(rng.randint(0, 4))]
+        if rng.random() < 0.5:
+            m.psk_key_exchange_modes = [rng.getrandbits(8) for _ in range(rng.randint(0, 2))]
+        if rng.random() < 0.5:
+            m.server_name = name()
+        if rng.random() < 0.5:
+            m.alpn_protocols = [name() for _ in range(rng.randint(0, 3))]
+        m.early_data = rng.random() < 0.3
+        if rng.random() < 0.4:
+            m.pre_shared_key = tls.OfferedPsks(identities=[(rb(0, 5, 40), rng.getrandbits(32)) for _ in range(rng.randint(0, 2))],
+                                               binders=[rb(0, 32, 48) for _ in range(rng.randint(0, 2))])
+        m.other_extensions = others()
+        return m
+    if kind == 2:
+        m = tls.ServerHello(random=rbytes(rng, 32), legacy_session_id=rb(0, 32), cipher_suite=u16(), compression_method=rng.getrandbits(8))
+        if rng.random() < 0.6:
+            m.supported_version = u16()
+        if rng.random() < 0.6:
+            m.key_share = (u16(), rb(0, 32, 65))
+        if rng.random() < 0.3:
+            m.pre_shared_key = rng.getrandbits(16)
+        m.other_extensions = others()
+        return m
+    if kind == 4:
+        m = tls.NewSessionTicket(ticket_lifetime=rng.getrandbits(32), ticket_age_add=rng.getrandbits(32), ticket_nonce=rb(0, 8, 255), ticket=rb(0, 1, 64, 700))
+        if rng.random() < 0.5:
+            m.max_early_data_size = rng.choice([0, 0xFFFFFFFF, rng.getrandbits(32)])
+        m.other_extensions = others()
+        return m
+    if kind == 8:
+        m = tls.EncryptedExtensions(alpn_protocol=name() if rng.random() < 0.6 else None, early_data=rng.random() < 0.3)
+        m.other_extensions = others()
+        return m
+    if kind == 11:
+        return tls.Certificate(request_context=rb(0, 0, 4, 255), certificates=[(rb(0, 1, 300, 70000 if rng.random() < 0.05 else 20), rb(0, 0, 9)) for _ in range(rng.randint(0, 3))])
+    if kind == 13:
+        return tls.CertificateRequest(request_context=rb(0, 4), signature_algorithms=[u16() for _ in range(rng.randint(0, 5))], other_extensions=others())
+    if kind == 15:
+        return tls.CertificateVerify(algorithm=u16(), signature=rb(0, 64, 256, 512))
+    return tls.Finished(verify_data=rb(0, 32, 48))
+
+
+def tls_encode(case):
+    op = case["op"]
+    if op[0] == "pull":
+        return [0, op[1]] + lp(B(op[2]))
+    return [1] + tree_tokens(["B", 0, op[1]])      # the message = a 0-byte-prefixed block of its top-level items
+
+
+def tls_impl(case):
+    from aioquic.buffer import Buffer
+    op = case["op"]
+    try:
+        if op[0] == "pull":
+            b = Buffer(data=B(op[2]))
+            m = _tls_funcs()[op[1]][0](b)
+            return [0] + tls_dump(op[1], m) + [b.tell()]
+        # "push": op = ["push", tree, hex of the implementation's bytes]; a 0-capacity block prefix is empty
+        return [0] + lp(B(op[3]))
+    except Exception as e:
+        return [errk(e)]
+
+
+def tls_oracle(case):
+    from aioquic.buffer import Buffer
+    op = case["op"]
+    if op[0] != "pull":
+        return None
+    kind, data = op[1], B(op[2])
+    pull, push = _tls_funcs()[kind]
+    b = Buffer(data=data)
+    try:
+        m = pull(b)
+    except Exception as e:
+        k = errk(e)
+        if k in TLS_ALLOWED:
+            return None
+        if k == 101 and (not data or data[0] != kind):
+            return None            # pull_handshake_type assert: callers dispatch on the type byte
+        sig = {"codec": "tls", "rule": "undocumented_exception", "exception": type(e).__name__, "message": kind}
+        CANDIDATES.setdefault(("tls-" + type(e).__name__, kind), {"signature": sig, "case": case})
+        return None               # reported as candidate finding (docs/C17.md F5), not failed: see run()
+    if not 0 <= b.tell() <= len(data):
+        return ("TLS decoder consumed more than the input", {"codec": "tls", "rule": "bounds"})
+    b2 = Buffer(capacity=len(data) + 4096)
+    try:
+        push(b2, m)
+    except Exception:
+        return None               # decoded values the encoder's API does not accept (None lists): out of the encoder's domain
+    m2 = pull(Buffer(data=b2.data))
+    if m2 != m:
+        return ("decoded TLS message (type %d) does not re-encode to the same value" % kind, {"codec": "tls", "rule": "reencode", "message": kind})
+    return None
+
+
+def tls_push_case(kind, m):
+    """drive the implementation's push, check pull(push(m)) == m (oracle) and hand the tree to the model"""
+    from aioquic.buffer import Buffer
+    pull, push = _tls_funcs()[kind]
+    b = Buffer(capacity=200000)
+    push(b, m)
+    r = Buffer(data=b.data)
+    back = pull(r)
+    bad = None
+    if back != m or not r.eof():
+        bad = ("pull(push(message type %d)) != message" % kind, {"codec": "tls", "rule": "roundtrip", "message": kind})
+    return {"s": "tls", "op": ["push", tls_tree(kind, m), kind, H(b.data)]}, bad
+
+
+def tls_gen(ctx, rng, n):
+    cases, bads = [], []
+    kinds = [1, 2, 4, 8, 11, 13, 15, 20]
+    for i in range(n):
+        kind = kinds[i % len(kinds)]
+        m = rand_msg(rng, kind)
+        try:
+            c, bad = tls_push_case(kind, m)
+        except (OverflowError, ValueError):
+            continue              # field longer than its length prefix allows / over the buffer: encoder refuses
+        if bad:
+            bads.append((c, bad))
+        r = rng.random()
+        if r < 0.35:
+            cases.append(c)
+        data = B(c["op"][3])
+        if r < 0.5:
+            cases.append({"s": "tls", "op": ["pull", kind, H(data)]})
+        elif r < 0.9:
+            for _ in range(rng.randint(1, 3)):
+                data = mutate(rng, data)
+            if data:
+                data = bytes([kind]) + data[1:]
+            cases.append({"s": "tls", "op": ["pull", kind, H(data)]})
+        elif r < 0.95:
+            cases.append({"s": "tls", "op": ["pull", kind, H(data[:rng.randint(0, len(data))])]})
+        else:
+            cases.append({"s": "tls", "op": ["pull", kind, H(bytes([kind]) + rbytes(rng, rng.randint(0, 40)))]})
+    # calibration witnesses (docs/C17.md): extension_length ignored; empty ALPN list; non-ASCII server name
+    sh = bytes([2]) + (2 + 32 + 1 + 2 + 1 + 2 + 6).to_bytes(3, "big") + b"\x03\x03" + bytes(32) + b"\x00" + b"\x13\x01\x00" + b"\x00\x06" + b"\x00\x2b\x00\x00\x03\x04"
+    cases.append({"s": "tls", "op": ["pull", 2, H(sh)]})
+    cases.append({"s": "tls", "op": ["pull", 8, H(bytes([8]) + (2 + 6).to_bytes(3, "big") + b"\x00\x06" + b"\x00\x10\x00\x02\x00\x00")]})
+    m = rand_msg(rng, 1)
+    m.server_name = "zzzz"
+    ch = b"".join(tree_bytes(t) for t in tls_tree(1, m)).replace(b"zzzz", b"zz\xffz")
+    cases.append({"s": "tls", "op": ["pull", 1, H(ch)]})
+    return cases, bads
+
 # ------------------------------------------------------------------ driver
 def _ops(c):
     return [c["op"]]
@@ -919,11 +1489,8 @@ def make_suites(ctx):
         "ack": mk("ack", "exec_ack", ack_encode, ack_impl, ack_oracle),
         "header": mk("header", "exec_header", hd_encode, hd_impl, hd_oracle),
     }
-    try:
-        from props import c17_stretch
-        suites.update(c17_stretch.make_suites(ctx, mk))
-    except ImportError:
-        pass
+    suites["tparams"] = mk("tparams", "exec_tparams", tp_encode, tp_impl, tp_oracle)
+    suites["tls"] = mk("tls", "exec_tls", tls_encode, tls_impl, tls_oracle)
     return suites
 
 
@@ -936,11 +1503,14 @@ def run(ctx):
     suites["ack"].run(ack_gen(rng, ctx.n(12000, 150000), ctx.thorough))
     suites["header"].run(hd_gen(rng, ctx.n(15000, 150000), ctx.thorough))
     extra = {}
-    try:
-        from props import c17_stretch
-        extra = c17_stretch.run(ctx, suites) or {}
-    except ImportError:
-        pass
+    suites["tparams"].run(tp_gen(rng, ctx.n(8000, 80000), ctx.thorough))
+    tls_cases, tls_bads = tls_gen(ctx, rng, ctx.n(8000, 80000))
+    suites["tls"].run(tls_cases)
+    for c, bad in tls_bads[:3]:
+        ctx.violation("impl-violation", "tls: " + bad[0], corr._short(c, 4000), signature=bad[1])
+    extra["tls_push_roundtrips_checked"] = len(tls_cases)
+    extra["candidate_findings_observed"] = [
+        {"id": k[0], "message_type": k[1], "signature": v["signature"], "example": corr._short(v["case"], 1500)} for k, v in sorted(CANDIDATES.items())]
     extra.update({
         "exhaustive_small_scope": "all non-empty range sets over a universe of %d packet numbers x 10 offsets; every varint first byte; "
                                   "all CID lengths 0..21,255 x long types x both versions" % (8 if ctx.thorough else 6),
